@@ -3,10 +3,17 @@ use crate::link::{Link, LinkCfg, Probe, LINK_FLAG_NAMES};
 use crate::report::{self, Report, Tier};
 
 pub mod c01;
+pub mod c02;
+pub mod c08;
+pub mod c09;
+pub mod ackworld;
 
 pub fn run(prop: &str, tier: Tier) -> i32 {
     match prop {
         "C01" => c01::run(tier),
+        "C02" => c02::run(tier),
+        "C08" => c08::run(tier),
+        "C09" => c09::run(tier),
         _ => {
             eprintln!("no check registered for {}", prop);
             2
@@ -24,6 +31,9 @@ pub fn replay(prop: &str, path: &str) -> i32 {
     };
     match prop {
         "C01" => c01::replay(&j),
+        "C02" => c02::replay(&j),
+        "C08" => c08::replay(&j),
+        "C09" => c09::replay(&j),
         _ => {
             eprintln!("no replay registered for {}", prop);
             2
